@@ -288,6 +288,7 @@ func verifRun(c *mon.Case) *mon.Result {
 	mon.SetLive(nil)
 	res.Val = mon.Canon(val)
 	res.Trace = tr.Events
+	res.StateIDs = tr.StateID
 	res.Dropped = tr.Dropped
 	if string(in) != string(c.Input) {
 		res.InputChanged = true
@@ -583,4 +584,52 @@ func tailFile(path string, n int) string {
 		return string(head) + "\n...\n" + string(tl)
 	}
 	return string(data)
+}
+
+// RunConc runs the concurrent stress mode of a (race-instrumented) batch binary and returns the
+// summary JSON and the race detector's log.
+func (b *Batch) RunConc(cases []*mon.Case, goroutines, iters int, canary bool, gomaxprocs int) ([]byte, string, error) {
+	cf := filepath.Join(b.Dir, "conc.cases.jsonl")
+	of := filepath.Join(b.Dir, "conc.out.json")
+	lp := filepath.Join(b.Dir, "race.log")
+	f, err := os.Create(cf)
+	if err != nil {
+		return nil, "", err
+	}
+	enc := json.NewEncoder(f)
+	for _, c := range cases {
+		enc.Encode(c)
+	}
+	f.Close()
+	can := "nocanary"
+	if canary {
+		can = "canary"
+	}
+	ctx, cancel := context.WithTimeout(context.Background(), 40*time.Minute)
+	defer cancel()
+	cmd := exec.CommandContext(ctx, b.Bin, "-conc", cf, of, fmt.Sprint(goroutines), fmt.Sprint(iters), can)
+	cmd.Env = append(append([]string{}, b.W.env...), "GORACE=halt_on_error=0 log_path="+lp, fmt.Sprintf("GOMAXPROCS=%d", gomaxprocs))
+	cmd.Dir = filepath.Join(b.W.Dir, "tmp")
+	out, runErr := cmd.CombinedOutput()
+	sum, _ := os.ReadFile(of)
+	var logs strings.Builder
+	matches, _ := filepath.Glob(lp + ".*")
+	for _, m := range matches {
+		d, _ := os.ReadFile(m)
+		logs.Write(d)
+		os.Remove(m)
+	}
+	os.Remove(cf)
+	os.Remove(of)
+	if runErr != nil && len(sum) == 0 {
+		return nil, logs.String(), fmt.Errorf("concurrent child failed: %v: %s", runErr, tailBytes(out, 2000))
+	}
+	return sum, logs.String(), nil
+}
+
+func tailBytes(b []byte, n int) string {
+	if len(b) > n {
+		b = b[len(b)-n:]
+	}
+	return string(b)
 }
